@@ -29,7 +29,7 @@ ENGINES = [
 # id -> dict(level, design, text, note, technique)
 CHECKS = {
     "C01": dict(level="model_checking", design="4/C01",
-                text="Every batch of the stated small-scope domain (all fit/no-fit boundary lengths x message types x batch sizes 1..3 x 21 small (min,max) contexts and batch sizes 1..2 x 9 mid-size/realistic contexts, each also on an encoder that already made one of six kinds of earlier call, typed prototypes as singles/pairs/triples x 5 contexts x 3 encode overloads, header-field sweeps, 65535-byte extremes alone, after a type change and after a packet of the same type, frames larger than the largest message) is encoded by a real Encoder and decoded by a fresh real Decoder; the decoded packets are compared field by field with the inputs by harness code. Exhaustive within the bounds, no sampling.",
+                text="Every batch of the stated small-scope domain (all fit/no-fit boundary lengths x message types x batch sizes 1..3 x 21 small (min,max) contexts and batch sizes 1..2 x 9 mid-size/realistic contexts, each also on an encoder that already made one of seven kinds of earlier call, typed prototypes as singles/pairs/triples x 5 contexts x 3 encode overloads, header-field sweeps, 65535-byte extremes alone, after a type change and after a packet of the same type, frames larger than the largest message) is encoded by a real Encoder and decoded by a fresh real Decoder; the decoded packets are compared field by field with the inputs by harness code. Exhaustive within the bounds, no sampling.",
                 note="Bounds: lengths around each boundary, one content pattern per packet; compares through public getters only; oracle code shares nothing with the library.",
                 technique="bounded exhaustive enumeration of executions of the real encoder+decoder (small-scope), independent field-by-field oracle"),
     "C07": dict(level="model_checking", design="4/C07",
@@ -45,11 +45,11 @@ CHECKS = {
                 note="Alphabet: 2 device ids, 2 stream ids, restart, 10 (batch,context,version) triples chosen to differ in every piece of carried encoder state, two of them from another one in the version only; packets carry junk ids of their own, a zero-length payload, message type 0 and payload type byte 0 occur.",
                 technique="explicit-state exploration of all operation sequences up to a depth on the real object, lock-step with a reference model"),
     "C10": dict(level="model_checking", design="4/C10",
-                text="For every history up to depth 4 (quick) / 6 (thorough) and every final (batch,context,version) of a 15-element set the frames of the used real Encoder are compared byte for byte (modulo a constant counter offset) with those of a fresh Encoder with the same ids; ten further histories emit 65530 / 65533 / 32765 frames in one call so that every final straddles the counter wrap or the sign boundary; runs under ASan/UBSan in a fork sandbox so crashes caused by leftover state are outcomes.",
+                text="For every history up to depth 4 (quick) / 6 (thorough) and every final (batch,context,version) of a 15-element set the frames of the used real Encoder are compared byte for byte (modulo a constant counter offset) with those of a fresh Encoder with the same ids; ten further histories emit 65530 / 65533 / 32765 frames in one call so that every final straddles the counter wrap or the sign boundary, and twelve contain an encode call aborted by an exception from the caller's packet source (fault injection); runs under ASan/UBSan in a fork sandbox so crashes caused by leftover state are outcomes.",
                 note="Purely differential: no model involved.",
                 technique="explicit-state exploration of all operation sequences up to a depth, differential oracle (used vs fresh object)"),
     "C05": dict(level="model_checking", design="4/C05",
-                text="All interleavings of the frame streams of 2 and 3 endpoints (7 templates x 8 variants incl. counter wrap, zero-size segments, trailing bytes, typed payloads; later segments differ from the first in every header field) explored as a DFS that copies the real Decoder at each branch; every prefix is judged against the stream's own expectation and in lock-step with the reassembly model.",
+                text="All interleavings of the frame streams of 2 and 3 endpoints (7 templates x 8 variants incl. counter wrap, zero-size segments, trailing bytes, typed payloads; later segments differ from the first in every header field; one endpoint has the default ids (0,0)) explored as a DFS that copies the real Decoder at each branch; every prefix is judged against the stream's own expectation and in lock-step with the reassembly model. A fan-out round keeps N endpoints mid-reassembly at once (N around every power of two up to 1000, thorough 10000) and completes them in three orders.",
                 note="Bounds: <= 9 frames in total (quick) / <= 12 (thorough) for three endpoints; all template and variant pairs for two endpoints; two variants reassemble to the largest messages (65535 / 65519-65520 bytes).",
                 technique="exhaustive enumeration of all interleavings (schedules of frame arrival) on copies of the real decoder, lock-step with a reference model"),
     "C06": dict(level="fault_enumeration", design="4/C06",
@@ -57,11 +57,11 @@ CHECKS = {
                 note="'Random beyond the bound' of the quantifier text is deliberately not done (sampling is a different family); the completed bound is reported.",
                 technique="exhaustive fault-sequence enumeration up to a bound on the real decoder"),
     "C17": dict(level="model_checking", design="4/C17",
-                text="77-symbol state-relative frame alphabet over 4 endpoints: unmerged tree of copied real Decoders (depth 3 quick / 4 thorough; depth 5 / 6 over a sharp 19-symbol sub-alphabet) and BFS (depth 9 / 11) merged on (model state, dump of the decoder's pending table); after every transition the set of endpoints with pending data must equal the set of open messages and buffered bytes must not exceed header + declared segment bytes received.",
+                text="80-symbol state-relative frame alphabet over 4 endpoints (incl. zero-length last segments with a plausible-looking trail, header-plus-zero-bytes frames, truncated TECMP-like buffers): unmerged tree of copied real Decoders (depth 3 quick / 4 thorough; depth 5 / 6 over a sharp 19-symbol sub-alphabet) and BFS (depth 9 / 11) merged on (model state, dump of the decoder's pending table); after every transition the set of endpoints with pending data must equal the set of open messages and buffered bytes must not exceed header + declared segment bytes received; plus the fan-out round of C05.",
                 note="Uses the guarded read-only hook Decoder::verifPending(); a header-only frame is modelled as carrying nothing.",
                 technique="explicit-state model checking (tree + BFS with state merging) of the real decoder against a reference model; invariant checked in every state"),
     "C18": dict(level="model_checking", design="4/C18",
-                text="On every path of the C05 interleaving exploration and the C17 tree/BFS the shared real Decoder is compared frame by frame with one solo real Decoder per endpoint that only sees that endpoint's frames; endpoint-less buffers (nullptr, short, TECMP) go to the shared decoder only.",
+                text="On every path of the C05 interleaving exploration and the C17 tree/BFS the shared real Decoder is compared frame by frame with one solo real Decoder per endpoint that only sees that endpoint's frames; endpoint-less buffers (nullptr, short, TECMP) go to the shared decoder only; the fan-out round of C05 with one solo decoder per endpoint.",
                 note="Purely differential; counts as in C05 + C17.",
                 technique="explicit-state exploration with a differential (projection) oracle on real decoder objects"),
     "C02": dict(level="model_checking", design="4/C02",
@@ -77,11 +77,11 @@ CHECKS = {
                 note="Expected getter values are the builder's field values, so symmetric endianness/offset errors do not cancel.",
                 technique="bounded exhaustive enumeration of inputs x decoder pre-states against an independent reference parser"),
     "C15": dict(level="model_checking", design="4/C15",
-                text="TECMP frames from an independent builder: CAN/CAN-FD data length 0..64 (and 7 consistent lengths above 64) x arbitration ids x CRC trailers, LIN x all 256 pids, capture-module status x serials x version bytes (short payloads x announced vendor lengths), bus status with 0..40 entries, each kind with inner lengths inconsistent with the buffer, and all 256 message types x data types x payload lengths x length bytes (thorough: all 65536 data types); decoded packets are compared with an independent conversion, unsupported/inconsistent messages must yield nothing.",
+                text="TECMP frames from an independent builder: CAN/CAN-FD data length 0..64 (and 7 consistent lengths above 64) x arbitration ids x CRC trailers, LIN x all 256 pids, capture-module status x serials x version bytes (short payloads x announced vendor lengths), bus status with 0..40 entries, each kind with inner lengths inconsistent with the buffer, every single bit of the data-flags and device-flags words alone, and all 256 message types x data types x payload lengths x length bytes (thorough: all 65536 data types); decoded packets are compared with an independent conversion, unsupported/inconsistent messages must yield nothing.",
                 note="CAN CRC values, frames with bytes after the declared payload, partial bus-status entries and status frames with data type FF00 are outside what the property fixes and are only checked for memory safety (C02).",
                 technique="bounded exhaustive enumeration of inputs against an independent reference conversion"),
     "C11": dict(level="model_checking", design="4/C11",
-                text="Table-driven: 24 classes, ~235 setter/getter pairs; for every field ALL values (<= 16 bits) or single bits + byte lanes + extremes + values relative to the current state (wider), from default / all-zero / all-ones / counting prior object states (payload classes also with data bytes): after set, get returns the value, every non-overlapping field's getter is unchanged and raw bytes are unchanged outside the bits an independent layout table assigns to the field; booleans additionally through set/clear sequences, and every flag setter with every mask value (incl. multi-bit masks) from every prior flag state.",
+                text="Table-driven: 24 classes, ~235 setter/getter pairs; for every field ALL values (<= 16 bits) or single bits + byte lanes + extremes + values relative to the current state (wider), from default / all-zero / all-ones / counting prior object states (payload classes also with data bytes): after set, get returns the value, every non-overlapping field's getter is unchanged and raw bytes are unchanged outside the bits an independent layout table assigns to the field; booleans additionally through set/clear sequences, every flag setter with every mask value (incl. multi-bit masks) from every prior flag state, and Packet::setPayload from every prior state (nothing or any of 19 payloads held) x 19 new payloads.",
                 note="Wide fields are covered bit-lane-wise, which decides bit-sliced accessors (byte swaps, shifts, masks); the overlap relation (legitimate aliases) is derived from the independent layout table.",
                 technique="bounded exhaustive enumeration class x field x value x prior state on the real objects"),
     "C12": dict(level="model_checking", design="4/C12",
@@ -89,15 +89,15 @@ CHECKS = {
                 note="The order of the two TECMP temperature bytes could not be cross-checked and is listed as an assumption in the evidence.",
                 technique="bounded exhaustive enumeration class x field x value against an independent layout table"),
     "C13": dict(level="model_checking", design="4/C13",
-                text="Every builder (CAN/CAN-FD all lengths 0..255 x 4 header variants incl. the RTR/RRS bit set first, LIN all lengths 0..255, Ethernet/analog boundary lengths to 65529, capture-module 5^4 string combinations x vendor lengths and each section alone at 17 boundary lengths, interface stream-id counts x vendor lengths) after each kind of prior contents; checked: getters, preserved header fields, independent wire image incl. NUL termination and even padding, DLC table, own validity check, real Decoder, raw bytes equal to those of a fresh object with the same final content.",
+                text="Every builder (CAN/CAN-FD all lengths 0..255 x 4 header variants incl. the RTR/RRS bit set first, LIN all lengths 0..255, Ethernet/analog boundary lengths to 65529, capture-module 5^4 string combinations x vendor lengths and each section alone at 17 boundary lengths, interface stream-id counts x vendor lengths) after each kind of prior state (earlier setData with shorter / longer / same-length data, or an object constructed from a raw image with trailing bytes); checked: getters, preserved header fields, independent wire image incl. NUL termination and even padding, DLC table, own validity check, real Decoder, raw bytes equal to those of a fresh object with the same final content.",
                 note="DLC is only constrained for representable lengths.",
                 technique="bounded exhaustive enumeration of builder inputs x prior object contents with independent layout oracle and fresh-object differential"),
     "C14": dict(level="model_checking", design="4/C14",
-                text="All ordered (source, target) pairs of a 29-packet pool (payload-less, zero-length payloads, equal-looking, one member per single-field difference, typed, decoder-produced) x copy/move construction and assignment, self assignments, all two-assignment sequences, equality laws on all pairs; the same for 19 Payload and 10 TECMP::Payload objects; observation through all getters under ASan in forked workers.",
+                text="All ordered (source, target) pairs of a 31-packet pool (payload-less, zero-length payloads, equal-looking, one member per single-field difference, typed, decoder-produced, decoder-produced and edited in place into a rejected state) x copy/move construction and assignment, self assignments, all two-assignment sequences, equality laws on all pairs; the same for 19 Payload and 10 TECMP::Payload objects; observation through all getters under ASan in forked workers.",
                 note="Equality must agree with field-by-field comparison only for non-empty payloads (as the property states).",
                 technique="exhaustive enumeration of object pairs x value operations (2-step histories) on the real classes"),
     "C16": dict(level="model_checking", design="4/C16",
-                text="34-operation alphabet over 3 devices x 2 interfaces x 2 message variants (incl. data packets and status messages of other kinds, which must change nothing): unmerged tree of copied real Status objects to depth 4 (quick) / 5 (thorough) and to depth 6 / 8 over a sharp 13-operation sub-alphabet, every prefix judged, plus BFS merged on the full ordered observable state run to its fixpoint (all 109 591 reachable states of the alphabet); after every operation counts, lookups by id and every getter/byte of every stored packet are compared with a latest-message map.",
+                text="34-operation alphabet over 3 devices x 2 interfaces x 2 message variants (one of them with the header fields a reassembled packet carries; incl. data packets and status messages of other kinds, which must change nothing): unmerged tree of copied real Status objects to depth 4 (quick) / 5 (thorough) and to depth 6 / 8 over a sharp 13-operation sub-alphabet, every prefix judged, plus BFS merged on the full ordered observable state run to its fixpoint (all 109 591 reachable states of the alphabet); after every operation counts, lookups by id and every getter/byte of every stored packet are compared with a latest-message map.",
                 note="Vector order is not constrained; 'random beyond the bound' is not done (the completed bound is reported).",
                 technique="explicit-state model checking (operation-sequence tree + BFS with state merging) of the real object against a reference model"),
     "C20": dict(level="model_checking", design="4/C20",
